@@ -551,6 +551,40 @@ func ruleHandlerNeverNil(c *Ctx, rule string) {
 	if build := genFn(c, rule, "(*Graph).Build"); build != nil {
 		okStore := false
 		for _, st := range storesToField(family(L, build), "internal/kessoku.Injector.IsReturnError") {
+			// flag = flag || node.providerSpec.IsReturnError: a phi of `true` (taken when the flag's own load is true) and
+			// the scheduled node's flag
+			if ph, isPhi := st.Val.(*ssa.Phi); isPhi && len(ph.Edges) == 2 {
+				okOr, nodeFlag := true, false
+				for i, e := range ph.Edges {
+					if k, isC := e.(*ssa.Const); isC && k.Value != nil && k.Value.String() == "true" {
+						pred := ph.Block().Preds[i]
+						iff, isIf := pred.Instrs[len(pred.Instrs)-1].(*ssa.If)
+						own := false
+						if isIf {
+							if u, isU := iff.Cond.(*ssa.UnOp); isU && u.Op == token.MUL {
+								if fa, isF := u.X.(*ssa.FieldAddr); isF && fieldKey(fa) == "internal/kessoku.Injector.IsReturnError" {
+									own = true
+								}
+							}
+						}
+						if !own {
+							okOr = false
+						}
+						continue
+					}
+					s := newSym(L, map[string]bool{})
+					s.maxD = 0
+					if strings.Contains(strings.Join(liftParams(L, pkgFuncs(L, genPkg), st.Parent(), s.eval(e)), "|"), "ProviderSpec.IsReturnError(field:internal/kessoku.node.providerSpec(") {
+						nodeFlag = true
+					} else {
+						okOr = false
+					}
+				}
+				if okOr && nodeFlag {
+					okStore = true
+				}
+				continue
+			}
 			k, isConst := st.Val.(*ssa.Const)
 			if !isConst || k.Value == nil || k.Value.String() != "true" {
 				continue
